@@ -389,6 +389,11 @@ def run(ctx):
     send_writes_wrapped(ctx, "C02.f")
     write_reaches_wire(ctx, "C02.f", parts=("v2",))
     read_returns_decoded(ctx, "C02.f")
+    # ... and what the decoder is given is the packet the device sent, whole: the V2 receive path frames by the length field (C01.e's premises)
+    from . import c04
+    from .c01 import v2_size_ok
+    c04.check_reassembly(ctx, "C02.g", "msmart.lan._LanProtocol.data_received", b"\x5a\x5a", v2_size_ok,
+                         "int.from_bytes(view[4:6], 'little') (the V2 total length, optionally floored at header + signature)", 56)
     ctx.require_min("encoders", 1)
     ctx.require_min("decoders", 1)
     ctx.require_min("segments", 8)
